@@ -469,6 +469,8 @@ def run_core(cfg, monitors=("dev", "link", "mem", "ref", "rsp"), plans=None, swe
     env.run_simulation(top, gens)
     events.sort(key=lambda e: (e[0], e[1], e[2]))
     evs = [e[3] for e in events]
+    # onto-ness: the port must offer exactly the device's address space (rank + bank + row + burst-aligned column bits)
+    evs.insert(0, dict(c="GEOM", aw=top.ports[0].address_width, t=0))
     changed = sum(1 for k, v in mem.items() if v != initword(k))
     evs.append(dict(c="DUMP", n=changed, t=cyc[0] * nph))
     evs.append(dict(c="END", t=cyc[0] * nph))
